@@ -17,7 +17,7 @@ use samply_symbols::{
 };
 use std::panic::{catch_unwind, AssertUnwindSafe};
 use std::cell::Cell;
-use std::sync::atomic::{AtomicBool, AtomicU64, Ordering};
+use std::sync::atomic::{AtomicBool, AtomicI64, AtomicU64, Ordering};
 use std::sync::{Arc, Barrier};
 use std::time::Instant;
 use verif_harness::common::*;
@@ -155,6 +155,9 @@ struct MemSource {
     calls: Arc<AtomicU64>,
     unaligned_calls: Arc<AtomicU64>,
     gate: Arc<Gate>,
+    /// `srcmode <k>`: a request ending exactly at EOF is answered with success but `k` bytes too few (`k > 0`) or
+    /// `-k` zero bytes too many (`k < 0`) — the excluded point of the theorems' hypothesis `Faithful`
+    mode: Arc<AtomicI64>,
 }
 
 impl FileByteSource for MemSource {
@@ -184,6 +187,15 @@ impl MemSource {
         match &self.data {
             Some(d) => buffer.extend_from_slice(&d[offset as usize..end as usize]),
             None => buffer.extend((offset..end).map(|i| gen_byte(&self.g, i))),
+        }
+        let k = self.mode.load(Ordering::SeqCst);
+        if k != 0 && end == self.g.len && size > 0 {
+            if k > 0 {
+                let cut = (k as u64).min(size as u64) as usize;
+                buffer.truncate(buffer.len() - cut);
+            } else {
+                buffer.extend(std::iter::repeat(0u8).take(k.unsigned_abs() as usize));
+            }
         }
         Ok(())
     }
@@ -1082,6 +1094,30 @@ fn until_straddle_rebuffered_case(back: u64) -> Case {
     Case { name: format!("until-straddle-rebuffered-{back}"), ops }
 }
 
+/// the excluded point of `Faithful`: the source reports success with a buffer of the wrong length for a
+/// request ending at EOF (file truncated / grown after its length was taken). With the last chunk cached
+/// beforehand nothing is fetched again and every answer stays right; otherwise the cache's `assert!`
+/// (cache.rs:67) fires: outcome `panic`, which ends the case.
+fn unfaithful_source_case(k: i64, cached_before: bool) -> Case {
+    let len = 2 * CH + 100;
+    let g = Gen { len, seed: 9, pat: 0, period: 1, bad_lo: 0, bad_hi: 0 };
+    let mut ops = vec![g.line(), Op::Read(10, 5).line()];
+    if cached_before {
+        ops.push(Op::Read(2 * CH + 10, 5).line());
+    }
+    ops.push(format!("srcmode {k}"));
+    ops.push(Op::Read(CH + 5, 10).line()); // buffer [CH, 2 CH): does not end at EOF
+    ops.push(Op::Into(len - 20, 10).line());
+    ops.push(Op::Into(len - 10, 10).line()); // handed through with the wrong size
+    ops.push(Op::Read(2 * CH - 5, 4).line());
+    ops.push(Op::Read(len - 50, 10).line()); // cached: right bytes; not cached: plans [2 CH, len) => assert
+    ops.push(Op::Until(len - 90, len, 3).line());
+    ops.push(Op::Entire.line());
+    ops.push("srcmode 0".to_string());
+    ops.push(Op::Read(len - 1, 1).line());
+    Case { name: format!("unfaithful-source-{k}-{}", if cached_before { "cached" } else { "fresh" }), ops }
+}
+
 pub struct C13;
 
 impl Prop for C13 {
@@ -1108,6 +1144,10 @@ impl Prop for C13 {
         }
         for &(back, dist) in &[(10, 500), (1, 4095), (2000, 2500), (4095, 4094), (300, 0)] {
             v.push(until_midchunk_case(back, dist));
+        }
+        for &k in &[1i64, -2, 1000] {
+            v.push(unfaithful_source_case(k, true));
+            v.push(unfaithful_source_case(k, false));
         }
         for &back in &[10, 1, 40] {
             v.push(until_straddle_rebuffered_case(back));
@@ -1144,7 +1184,12 @@ impl Prop for C13 {
             Tier::Thorough => rng.chance(1, 8),
         };
         let n = if rng.chance(1, 8) { rng.range(60, 150) } else { rng.range(2, 40) };
-        for _ in 0..n {
+        // 1 case in 40: from some point on the source answers requests ending at EOF with the wrong length
+        let unfaithful_at = if g.len > 0 && rng.chance(1, 40) { Some(rng.below(n)) } else { None };
+        for i in 0..n {
+            if unfaithful_at == Some(i) {
+                ops.push(format!("srcmode {}", *rng.pick(&[1i64, 2, 7, -1, -5, 100000])));
+            }
             let op = gen_op(rng, &g, &data, &prev);
             prev.push(op.under(g.len));
             ops.push(op.line());
@@ -1187,7 +1232,8 @@ impl Prop for C13 {
         let calls = Arc::new(AtomicU64::new(0));
         let unaligned = Arc::new(AtomicU64::new(0));
         let gate = Arc::new(Gate::new());
-        let source = MemSource { g, data: g.materialise().map(Arc::new), calls: calls.clone(), unaligned_calls: unaligned.clone(), gate: gate.clone() };
+        let mode = Arc::new(AtomicI64::new(0));
+        let source = MemSource { g, data: g.materialise().map(Arc::new), calls: calls.clone(), unaligned_calls: unaligned.clone(), gate: gate.clone(), mode: mode.clone() };
         let cache: Cache = FileContentsWrapper::new(FileContentsWithChunkedCaching::new(g.len, source));
         let parsed: Vec<(Option<u64>, Option<Op>)> = ops[1..]
             .iter()
@@ -1211,6 +1257,21 @@ impl Prop for C13 {
                 i += 1;
                 continue;
             }
+            if let Some(k) = ops[1 + i].trim().strip_prefix("srcmode ") {
+                match k.trim().parse::<i64>() {
+                    Ok(k) if k.unsigned_abs() <= 1 << 20 => {
+                        mode.store(k, Ordering::SeqCst);
+                        stats.bump("srcmode_lines(unfaithful_source)");
+                        out.push("srcmode".to_string());
+                        i += 1;
+                        continue;
+                    }
+                    _ => {
+                        out.push("bad-op".to_string());
+                        return out;
+                    }
+                }
+            }
             match parsed[i] {
                 (_, None) => {
                     out.push("bad-op".to_string());
@@ -1233,7 +1294,7 @@ impl Prop for C13 {
                             out.push(line);
                         }
                         None => {
-                            stats.bump("panics");
+                            stats.bump(if mode.load(Ordering::SeqCst) != 0 { "panics_under_unfaithful_source" } else { "panics" });
                             out.push("panic".to_string());
                             return out;
                         }
